@@ -54,12 +54,14 @@ KIND(bits) {
             hex_print((const uint8_t *) &d, sizeof(d));
             printf("\n");
         } else if (line[0] == 'n') {
+            alarm(2);                 /* a hang ends the process (SIGALRM): the caller re-runs the line forked */
             bits_case(line);
+            alarm(0);
         } else if (line[0] == 'c') {
             fflush(stdout);
             pid_t pid = fork();
             if (pid == 0) {
-                alarm(20);
+                alarm(2);
                 int rc = bits_case(line);
                 fflush(stdout);
                 _exit(rc);
